@@ -3,6 +3,23 @@ mod checks;
 mod core;
 mod worlds;
 
+// Crate-root shim module trees for the component worlds `links`, `uplinks`, `queues`: PRIVATE source files of
+// the product are compiled into the harness with `#[path]` and import their siblings through `crate::...`,
+// so these five modules must live at the crate root under exactly these names (see src/shims/*.rs).
+#[path = "shims/rt_agent.rs"]
+mod agent;
+#[allow(dead_code, unused_imports, clippy::all)]
+#[path = "/repo/runtime/swimos_runtime/src/backpressure/mod.rs"]
+mod backpressure;
+#[allow(dead_code, unused_imports, clippy::all)]
+#[path = "/repo/server/swimos_agent/src/event_queue/mod.rs"]
+mod event_queue;
+#[allow(dead_code, unused_imports, clippy::all)]
+#[path = "/repo/server/swimos_agent/src/map_storage/mod.rs"]
+mod map_storage;
+#[path = "shims/ag_lanes.rs"]
+mod lanes;
+
 use std::sync::Arc;
 
 use crate::core::runner::{self, ReplayFile};
@@ -159,6 +176,10 @@ fn main() {
         "codec-child" => {
             // Hidden: one codec case in a process of its own (the decoder under test may abort it).
             std::process::exit(worlds::codec::child_main());
+        }
+        "recon-keys" => {
+            // Hidden: ReconKey equality / hash of the product against the key classes of the `queues` world.
+            print!("{}", worlds::queues::key_report());
         }
         "worlds" => {
             for w in checks::world_names() {
